@@ -266,8 +266,8 @@ def onExec (t : T) (o : COp) : T :=
       else if a.status != .disabled || t.running == some k then { t with wf := false } else t
     | none => t
   | .insertd k =>
-    let t := if t.inDispatch then t else { t with stBeforeInsert := t.lastSt }
-    t.modSrc k fun a => { a with kept := a.kind != .chan && a.kind != .custom }
+    -- (the dispatcher is kept once the insertion is attempted — `ins … ok/err` —, not when the call finds no source object)
+    if t.inDispatch then t else { t with stBeforeInsert := t.lastSt }
   | .insert _ => if t.inDispatch then t else { t with stBeforeInsert := t.lastSt }
   | _ => t
 
@@ -374,6 +374,7 @@ def onObs (t : T) (x : Obs) : T :=
     | _, _ => t
   | .ins k (.ok tok) =>
     let t := { t with handouts := t.handouts + 1 }
+    let t := if t.pendingOp == some (.insertd k) then t.modSrc k fun a => { a with kept := a.kind != .chan && a.kind != .custom } else t
     -- a token handed out a second time: finding F12 when a generation can have wrapped (65536 reuses of one slot),
     -- otherwise the list lost a slot's generation
     let t := if t.issued.contains tok then
@@ -387,6 +388,7 @@ def onObs (t : T) (x : Obs) : T :=
                                  armedInDisp := t.inDispatch }
   | .ins k (.err _) =>
     let t := { t with handouts := t.handouts + 1 }
+    let t := if t.pendingOp == some (.insertd k) then t.modSrc k fun a => { a with kept := a.kind != .chan && a.kind != .custom } else t
     let t := if t.inDispatch then t else { t with insFailed := some k }
     let t := { t with regFailed := true, anyFailure := true }
     t.modSrc k fun a => { a with status := .absent, tok := none }
@@ -547,7 +549,8 @@ def onObs (t : T) (x : Obs) : T :=
         -- C02: whoever had a pending cause when the wait began was called back
         t.srcs.foldl (fun (t : T) ((j, a) : Nat × ASrc) =>
           -- (a source whose (un)registration failed half-way during this dispatch is not judged any more)
-          if a.dueAtBegin && !a.touched && !a.unknown && a.cbThisDispatch == 0 then
+          -- (nor is one whose parameters were changed during this dispatch without `update`: outside the documented protocol)
+          if a.dueAtBegin && !a.touched && !a.unknown && !a.dirty && a.cbThisDispatch == 0 then
             (t.flag .C02 s!"source {j} had a pending cause when the dispatch began and was not called back").disturbed j
               s!"source {j} had a pending cause when the dispatch began and was not called back"
           else t) t
